@@ -11,6 +11,19 @@ executes (`lean/DriverFlush.lean`):
     begin   the listener's write is entered       append  its bytes reach the wire
     end     the write returns (then: the `is` test, the pop, the next iteration up to its write)
 
+and, for the schedules with a reconnect (the application's `while True: try: async with gateway: async for
+... in gateway.listen() ... except TransportError: continue`), two choices that the Lean model does not have:
+
+    drop    the link goes down: the listener's `read()` (idle) or its write that is waiting at `begin` / `append`
+            (nothing of it has reached the wire) raises TransportFailedError; listen() ends with it and the
+            listener leaves `async with gateway` (`__aexit__` with that exception)
+    up      the listener enters `async with gateway` again (the SAME Gateway object) and calls listen() again
+
+Application tasks may call send between `drop` and `up` (the node sleeps: the command is parked).  For the model
+both are no-ops while the listener is idle (the buffers persist over a reconnect: the observation after the step must
+equal the one before it); a drop that aborts a flush has no model step, the comparison stops there and the rest of the
+run is judged by the oracle alone.
+
 After every step `gateway._message_buffer.set_messages` (keys in order, payloads, object identity),
 the wire (lines in order, with the object each line was encoded from) and the listener's position are
 compared with the model.  After the schedule the node wakes once more with nothing else running, and
@@ -26,6 +39,7 @@ it is reached) and all tasks of a case are cancelled when it ends.
 from __future__ import annotations
 
 import asyncio
+import contextlib
 import functools
 import itertools
 import json
@@ -36,12 +50,15 @@ from ..lib import Corr
 
 lib.use_repo()
 
+from aiomysensors.exceptions import TransportError, TransportFailedError  # noqa: E402
 from aiomysensors.gateway import Gateway  # noqa: E402
 from aiomysensors.model.message import Message  # noqa: E402
 from aiomysensors.model.node import Child, Node  # noqa: E402
 from aiomysensors.transport import Transport  # noqa: E402
 
 DRIVER = "DriverFlush.lean"
+LINK_DOWN = object()    # read() raises TransportFailedError when it takes this from the queue
+LINK_TOKENS = ("drop", "up")
 CASE_TIMEOUT = 20.0     # every wait of a case happens under this deadline
 NODE = 1
 WAKE_LINE = {"2.0": f"{NODE};255;3;0;22;1111", "2.1": f"{NODE};255;3;0;22;7", "2.2": f"{NODE};255;3;0;32;500"}
@@ -87,21 +104,32 @@ class GatedTransport(Transport):
         self.gated_task: asyncio.Task | None = None    # only this task's writes are gated (the listener)
         self.current: dict = {}                        # task -> message object being sent (set by the send spy)
         self.ungated_writes = 0
+        self.connects = 0
+        self.disconnects = 0
+        self.fail = False                              # the write waiting at a gate raises instead of going on
 
     async def connect(self) -> None:
-        pass
+        self.connects += 1
 
     async def disconnect(self) -> None:
-        pass
+        self.disconnects += 1
 
     async def read(self) -> str:
-        return await self.readq.get()
+        item = await self.readq.get()
+        if item is LINK_DOWN:
+            raise TransportFailedError("link down")
+        return item
 
     async def _gate(self, name: str) -> None:
         self.gate = asyncio.Event()
         self.phase = name
         self.progress.set()
         await self.gate.wait()
+        if self.fail:
+            self.fail = False
+            self.phase = None
+            self.gate = None
+            raise TransportFailedError("link down")
 
     async def write(self, decoded_message: str) -> None:
         task = asyncio.current_task()
@@ -125,6 +153,14 @@ class GatedTransport(Transport):
         self.progress.clear()
         self.gate.set()
 
+    def fail_write(self) -> None:
+        """The link goes down under the write in progress, before any of its bytes reached the wire."""
+        if self.phase not in ("begin", "append") or self.gate is None or self.gate.is_set():
+            raise NotEnabled(f"no write is waiting before its bytes reach the wire (listener at {self.phase!r})")
+        self.fail = True
+        self.progress.clear()
+        self.gate.set()
+
 
 # ---- one case on the real gateway ------------------------------------------------------------
 
@@ -132,21 +168,25 @@ class GatedTransport(Transport):
 class Case:
     """version, parked [(keyname, payload)], senders [[(keyname, payload)]], schedule [token]."""
 
-    def __init__(self, version, parked, senders, schedule=None, origin="enum"):
+    def __init__(self, version, parked, senders, schedule=None, origin="enum", drops=0):
         self.version = version
         self.parked = [tuple(x) for x in parked]
         self.senders = [[tuple(x) for x in s] for s in senders]
         self.schedule = list(schedule) if schedule is not None else None
         self.origin = origin
+        self.drops = drops      # random schedules only: how often the link may go down
 
     def to_json(self):
-        return {"version": self.version, "parked": [list(x) for x in self.parked],
-                "senders": [[list(x) for x in s] for s in self.senders], "schedule": self.schedule,
-                "origin": self.origin}
+        j = {"version": self.version, "parked": [list(x) for x in self.parked],
+             "senders": [[list(x) for x in s] for s in self.senders], "schedule": self.schedule,
+             "origin": self.origin}
+        if self.drops:
+            j["drops"] = self.drops
+        return j
 
     @staticmethod
     def from_json(j, origin="corpus"):
-        return Case(j["version"], j["parked"], j["senders"], j["schedule"], origin)
+        return Case(j["version"], j["parked"], j["senders"], j["schedule"], origin, j.get("drops", 0))
 
 
 class Run:
@@ -173,6 +213,10 @@ class Run:
         self.wakes = 0
         self.in_flush = False
         self.waiting_for = "start"
+        self.ctx: contextlib.AsyncExitStack | None = None   # holds `async with gateway` open between steps
+        self.link_up = False
+        self.drops = 0
+        self.link_errors: list[str] = []     # the transport errors with which listen() ended at a drop
         orig_send = gw.send
         tr = self.tr
 
@@ -235,8 +279,33 @@ class Run:
                 self.agen = self.gw.listen()   # a generator that raised is finished: listen() again
             self.listener = None
 
-    async def start(self) -> None:
+    async def _enter(self) -> None:
+        """`async with gateway:` is entered (AsyncExitStack = the with statement, split over two steps)."""
+        self.ctx = contextlib.AsyncExitStack()
+        try:
+            await self.ctx.enter_async_context(self.gw)
+        except Exception as e:  # noqa: BLE001
+            self.errors.append(f"__aenter__ raised {type(e).__name__}")
+        self.link_up = True
         self.agen = self.gw.listen()
+
+    async def _leave(self, exc: BaseException | None) -> None:
+        """The `async with gateway:` block is left, with the exception that ended listening (if any)."""
+        ctx, self.ctx = self.ctx, None
+        self.link_up = False
+        if ctx is None:
+            return
+        try:
+            if exc is None:
+                await ctx.aclose()
+            else:
+                await ctx.__aexit__(type(exc), exc, exc.__traceback__)
+        except Exception as e:  # noqa: BLE001
+            if e is not exc:
+                self.errors.append(f"__aexit__ raised {type(e).__name__}")
+
+    async def start(self) -> None:
+        await self._enter()
         for keyname, payload in self.case.parked:
             await self.gw.send(self._new_message(keyname, payload))
         loop = asyncio.get_running_loop()
@@ -251,16 +320,31 @@ class Run:
 
     def enabled(self) -> list[str]:
         out = [f"s{i}" for i, calls in enumerate(self.case.senders) if self.done_calls[i] < len(calls)]
+        if not self.link_up:
+            out.append("up")
+            return out
         if self.in_flush:
             if self.tr.phase is not None:
                 out.append(self.tr.phase)
+            if self.drops < self.case.drops and self.tr.phase in ("begin", "append"):
+                out.append("drop")
         else:
             out.append("wake")
+            if self.drops < self.case.drops:
+                out.append("drop")
         return out
 
     async def step(self, tok: str) -> None:
         tr = self.tr
-        if tok == "wake":
+        if tok == "drop":
+            await self._drop()
+        elif tok == "up":
+            if self.link_up:
+                raise NotEnabled("up while the link is up")
+            await self._enter()
+        elif tok == "wake":
+            if not self.link_up:
+                raise NotEnabled("wake while the link is down")
             if self.in_flush:
                 raise NotEnabled("wake while the listener is still flushing")
             if self.listener is None:
@@ -292,6 +376,39 @@ class Run:
             self.in_flush = False
             self._reap_listener()
 
+    async def _drop(self) -> None:
+        """The link goes down.  The listener's pending transport call raises; if listen() ends with that, the listener
+        leaves the gateway context (what `except TransportError: continue` around `async with gateway:` does)."""
+        tr = self.tr
+        if not self.link_up:
+            raise NotEnabled("drop while the link is down")
+        if self.in_flush:
+            tr.fail_write()      # NotEnabled unless the write waits at `begin` / `append`
+        else:
+            if self.listener is None:
+                self._start_listener()
+                await asyncio.sleep(0)
+            tr.progress.clear()
+            tr.readq.put_nowait(LINK_DOWN)
+        self.drops += 1
+        await self._wait_progress("drop")
+        lst = self.listener
+        if lst is None or not lst.done():
+            # the failure was swallowed and the listener goes on (it waits at its next gate): the application has
+            # seen nothing, the context stays entered
+            self.errors.append("the listener went on after the transport failed")
+            return
+        exc = None if lst.cancelled() else lst.exception()
+        self.listener = None
+        self.in_flush = False
+        if isinstance(exc, TransportError):
+            self.link_errors.append(type(exc).__name__)
+        elif exc is not None:
+            self.errors.append(f"listener raised {type(exc).__name__}")
+        else:
+            self.errors.append("listen() yielded a message although the transport failed")
+        await self._leave(exc)
+
     async def final_wake(self) -> None:
         """The node wakes once more; nothing else runs; gates are released as they are reached."""
         await self.step("wake")
@@ -309,7 +426,12 @@ class Run:
         if tasks:
             await asyncio.gather(*tasks, return_exceptions=True)
         try:
-            await self.agen.aclose()
+            if self.agen is not None:
+                await self.agen.aclose()
+        except Exception:  # noqa: BLE001
+            pass
+        try:
+            await self._leave(None)
         except Exception:  # noqa: BLE001
             pass
 
@@ -460,11 +582,11 @@ async def _run_case(run, case, obs, rng, max_steps):
         while True:
             en = run.enabled()
             calls_left = any(t.startswith("s") for t in en)
-            if not run.in_flush and not calls_left and run.wakes >= 1:
+            if not run.in_flush and not calls_left and run.wakes >= 1 and run.link_up:
                 break
             if len(sched) >= max_steps:
-                # wind down: finish the flush in progress and the outstanding calls, no new wake
-                en = [t for t in en if t != "wake"] or en
+                # wind down: finish the flush in progress and the outstanding calls, no new wake, no new drop
+                en = [t for t in en if t not in ("wake", "drop")] or en
             elif "wake" in en and run.wakes >= 3:
                 en = [t for t in en if t != "wake"] or en
             tok = rng.choice(en)
@@ -473,6 +595,9 @@ async def _run_case(run, case, obs, rng, max_steps):
             obs.append(run.observe())
         case.schedule = sched
     drained = 0
+    if not run.link_up:
+        drained += 1                     # the schedule left the link down: the listener connects again
+        await run.step("up")
     while run.in_flush and run.tr.phase is not None and drained < 400:
         drained += 1                     # the schedule left the listener inside a flush: let it finish
         await run.step(run.tr.phase)
@@ -487,6 +612,7 @@ async def _run_case(run, case, obs, rng, max_steps):
     sent, wire = list(run.sent), run.wire()
     bad = oracle(sent, wire, run.errors, run.tr.ungated_writes)
     info = {"errors": list(run.errors), "not_enabled": not_enabled, "ungated_writes": run.tr.ungated_writes, "wakes": run.wakes,
+            "drops": run.drops, "link_errors": list(run.link_errors), "connects": run.tr.connects,
             "sent": [[list(k), p, s] for k, p, s in sent], "wire": [[line, s] for line, s in wire],
             "left_parked": [[list(k), p, s] for k, p, s in run.buf()]}
     return obs, bad, info
@@ -525,6 +651,67 @@ def enumerate_schedules(case: Case):
 
     rec(tuple(0 for _ in senders), None, frozenset(k for k, _ in case.parked), [])
     return out
+
+
+def enumerate_reconnect_schedules(case: Case, wake=True):
+    """All maximal interleavings of the application tasks' calls with ONE reconnect of the listener (`drop` ... `up`,
+    calls may fall in between) and, with `wake`, ONE wake of the listener: the link drops before the wake, under a
+    write of the flush that waits at `begin` or `append` (the flush is aborted, what is left stays for the next
+    wake), or after the flush.  Without `wake` the node sleeps through the whole schedule.  The final wake of every
+    case comes after the schedule.  Only enabledness is tracked, as in `enumerate_schedules`."""
+    senders = case.senders
+    out = []
+
+    def rec(done, lst, keys, link, sched):
+        # lst: None = not woken yet; ("f", entries left, phase 0..2); "done".  link: "new" | "down" | "again"
+        progressed = False
+        for i, calls in enumerate(senders):
+            if done[i] < len(calls):
+                progressed = True
+                d2 = done[:i] + (done[i] + 1,) + done[i + 1:]
+                rec(d2, lst, keys | {calls[done[i]][0]}, link, sched + [f"s{i}"])
+        if link == "down":
+            rec(done, lst, keys, "again", sched + ["up"])
+            return
+        if lst is None and wake:
+            progressed = True
+            n = len(keys)
+            rec(done, ("f", n, 0) if n else "done", keys, link, sched + ["wake"])
+        elif lst not in (None, "done"):
+            progressed = True
+            _, n, ph = lst
+            tok = ("begin", "append", "end")[ph]
+            nxt = ("f", n, ph + 1) if ph < 2 else (("f", n - 1, 0) if n > 1 else "done")
+            rec(done, nxt, keys, link, sched + [tok])
+        if link == "new" and (lst in (None, "done") or lst[2] < 2):
+            progressed = True
+            rec(done, lst if lst is None else "done", keys, "down", sched + ["drop"])
+        if not progressed:
+            out.append(sched)
+
+    rec(tuple(0 for _ in senders), None, frozenset(k for k, _ in case.parked), "new", [])
+    return out
+
+
+def model_view(schedule, obs):
+    """What of a run the Lean model can follow: (model operations, implementation observations to compare them
+    with, steps at which a reconnect was not the no-op the model takes it for).  `drop` / `up` while the listener is
+    idle have no model operation: the observation after the step must equal the one before.  A drop that aborts a
+    flush cannot be expressed: the comparison ends before it (no final wake in the model either)."""
+    ops, keep, changed = [], [obs[0]], []
+    for j, tok in enumerate(schedule):
+        if tok in LINK_TOKENS:
+            if tok == "drop" and "pc=flush" in obs[j]:
+                return ops, keep, changed, True
+            if obs[j + 1] != obs[j]:
+                changed.append(j)
+                return ops, keep, changed, True
+            continue
+        ops.append(f"fstep {tok}")
+        keep.append(obs[j + 1])
+    ops.append("ffinal")
+    keep.append(obs[-1])
+    return ops, keep, changed, False
 
 
 def sender_shapes(seq):
@@ -601,8 +788,16 @@ def run_c09(ctx) -> Corr:
                 "for the all-same-key patterns; thorough adds every split over <= 3 tasks for all patterns, "
                 "every interleaving for 3 parked (<= 3 calls) and 4 parked commands (<= 2 calls), equal-payload "
                 "variants, and random long schedules (up to 4 calls per task, 3 tasks, 3 concurrent wakes) drawn "
-                "from what the real tasks can do. non-trivial = a call "
-                "ran while the listener was inside a flush (between wake and the last end)")
+                "from what the real tasks can do. RECONNECT schedules (the listener sits in `async with gateway:` "
+                "from the start of every case; `drop` = its read, or its write waiting before the bytes reach the wire, "
+                "raises TransportFailedError, listen() ends, the context is left with that exception; `up` = the same "
+                "Gateway object is entered again and listen() is called again): quick = EVERY interleaving of one "
+                "drop..up pair with one wake and <= 2 calls (one task) and <= 2 parked commands, and with no wake at all "
+                "(<= 3 calls, also split over tasks for <= 2 calls), plus random schedules with 1-2 drops; thorough adds "
+                "<= 3 calls with a wake, the splits over tasks and more random ones; the same three clauses are "
+                "evaluated over the whole run (all connections) after the final wake. non-trivial = a call "
+                "ran while the listener was inside a flush (between wake and the last end), or a command was parked or "
+                "being released when the link dropped / the context was entered again")
     rng = lib.rng_for(ctx.seed, "c09")
     cases: list[Case] = []
     if getattr(ctx, "replay", None):
@@ -636,9 +831,22 @@ def run_c09(ctx) -> Corr:
     # values that are falsy or equal in Python ('' and '0'; `is` is not `==`, and a message is not its payload):
     # every interleaving again with all payloads empty, for <= 2 calls and 1-2 parked commands
     add_enumerated(configs(range(1, 3), range(1, 3), one_task), "enum-empty-payloads", payload="")
+    # one reconnect of the listener (drop .. up on the same Gateway object) at every point of every interleaving
+    def add_reconnect(cfgs, origin, wake):
+        nonlocal vi
+        for parked, shape in cfgs:
+            for sched in enumerate_reconnect_schedules(Case("2.0", parked, shape), wake):
+                cases.append(Case(WAKE_VERSIONS[vi % 3], parked, shape, sched, origin))
+                vi += 1
+
+    add_reconnect(configs(range(0, 3), range(0, 4), one_task), "reconnect-asleep", wake=False)
+    add_reconnect(configs(range(0, 3), range(0, 3), lambda _s, shape: len(shape) >= 2), "reconnect-asleep", wake=False)
+    add_reconnect(configs(range(0, 3), range(0, 3), one_task), "reconnect-wake", wake=True)
     n_quick = len(cases)
     random_cases: list[Case] = []
     if ctx.tier == "thorough":
+        add_reconnect(configs(range(0, 3), (3,), one_task), "reconnect-wake", wake=True)
+        add_reconnect(configs(range(0, 3), range(0, 4), split_small), "reconnect-wake", wake=True)
         add_enumerated(configs(range(0, 3), range(0, 4), split_rest), "enum-tasks")
         # up to 4 parked commands
         add_enumerated(configs((3,), range(0, 4), one_task), "enum-parked3")
@@ -657,6 +865,14 @@ def run_c09(ctx) -> Corr:
         senders = [[(rng.choice(ks), rng.choice(["0", "1", "2", "x y", "é", "", ""])) for _ in range(rng.randint(0, 4))]
                    for _ in range(rng.randint(1, 3))]
         random_cases.append(Case(WAKE_VERSIONS[j % 3], parked, senders, None, "random"))
+    # random long schedules in which the link goes down once or twice (its own stream: the cases above stay the same)
+    rrng = lib.rng_for(ctx.seed, "c09-reconnect")
+    for j in range(n_rand // 3):
+        ks = names[:rrng.choice([1, 2, 2, 3, 4])]
+        parked = [(rrng.choice(ks), rrng.choice(["0", "1", "on", ""])) for _ in range(rrng.randint(0, 3))]
+        senders = [[(rrng.choice(ks), rrng.choice(["0", "1", "2", "x y", ""])) for _ in range(rrng.randint(0, 3))]
+                   for _ in range(rrng.randint(1, 3))]
+        random_cases.append(Case(WAKE_VERSIONS[j % 3], parked, senders, None, "random-reconnect", drops=rrng.choice([1, 1, 2])))
 
     results = []
 
@@ -664,14 +880,17 @@ def run_c09(ctx) -> Corr:
         for case in cases:
             results.append((case, await run_case(case)))
         for case in random_cases:
-            results.append((case, await run_case(case, rng, max_steps)))
+            results.append((case, await run_case(case, rrng if case.drops else rng, max_steps)))
 
     asyncio.run(run_all())
 
-    ops, spans = [], []
+    ops, spans, compare = [], [], []
     for case, (obs, bad, info) in results:
         cj = case.to_json()
         overlap = any(tok.startswith("s") and "pc=flush" in obs[i] for i, tok in enumerate(case.schedule))
+        link_steps = [i for i, tok in enumerate(case.schedule) if tok in LINK_TOKENS]
+        # a reconnect with something at stake: a command parked or being released when the link dropped / came back
+        loaded = any("buf=[]" not in obs[i] for i in link_steps)
         if bad:
             corr.violate("C09 violated on the real gateway: " + bad[0], {**cj, "clauses": bad, **info})
         if info["errors"]:
@@ -679,8 +898,8 @@ def run_c09(ctx) -> Corr:
         if info["not_enabled"]:
             corr.disagree("a step of the schedule is not enabled in the real system (schedule enumeration wrong, or "
                           "the code's control flow is not the modelled one)", {**cj, "not_enabled": info["not_enabled"]})
-        corr.case((case.version, json.dumps(cj["parked"]), json.dumps(cj["senders"]), " ".join(case.schedule)), overlap,
-                  {**cj, "wire": info["wire"]} if overlap else None)
+        corr.case((case.version, json.dumps(cj["parked"]), json.dumps(cj["senders"]), " ".join(case.schedule)),
+                  overlap or loaded, {**cj, "wire": info["wire"]} if overlap or loaded else None)
         corr.count(f"origin:{case.origin.split(':')[0]}")
         corr.count(f"schedules:{'quick-enumeration' if case.origin.startswith(('enum-1task', 'enum-tasks')) else case.origin.split(':')[0]}")
         corr.count(f"version:{case.version}")
@@ -691,18 +910,51 @@ def run_c09(ctx) -> Corr:
         corr.count("steps", len(case.schedule))
         if overlap:
             corr.count("cases-with-call-during-flush")
+        if link_steps:
+            corr.count("cases-with-reconnect")
+            corr.count(f"reconnects-in-schedule:{info['drops']}")
+            if loaded:
+                corr.count("reconnect:with-commands-parked")
+            if any(case.schedule[i] == "drop" and "pc=flush" in obs[i] for i in link_steps):
+                corr.count("reconnect:drop-aborts-a-flush(oracle-only-from-there)")
+            down = False
+            for tok in case.schedule:
+                down = tok == "drop" or (down and tok != "up")
+                if down and tok.startswith("s"):
+                    corr.count("reconnect:call-while-the-link-is-down")
+                    break
+            if info["connects"] != info["drops"] + 1 or len(info["link_errors"]) != info["drops"]:
+                corr.disagree("a drop did not end listen() with a transport error followed by one new connect",
+                              {**cj, "connects": info["connects"], "drops": info["drops"], "link_errors": info["link_errors"],
+                               "errors": info["errors"]})
         if "buf=[]" not in obs[-2]:
             corr.count("cases-with-commands-left-for-the-final-wake")
-        lines = model_ops(case, case.schedule)
+        mops, mobs, changed, cut = model_view(case.schedule, obs)
+        if changed:
+            corr.disagree("a reconnect while the listener was idle changed the buffers / the wire / the send log (for the "
+                          "model it is a no-op)", {**cj, "step": changed[0] + 1, "before": obs[changed[0]],
+                                                   "after": obs[changed[0] + 1]})
+        if cut:
+            corr.count("model-comparison-ends-at-a-reconnect")
+        lines = [model_ops(case, [])[0], *mops]
+        compare.append(mobs)
         spans.append((len(ops), len(lines)))
         ops.extend(lines)
     corr.exhaustive = True
     corr.notes.append(f"{n_quick} corpus + exhaustively enumerated schedules, {len(cases) - n_quick} more enumerated in "
                       f"thorough, {len(random_cases)} random schedules; scope: buffered sends to the sleeping woken "
                       "node, one listener; unbuffered concurrent sends are outside the property as stated")
+    corr.notes.append("reconnect (drop / up): the Lean flush model has no such operation. While the listener is idle it is "
+                      "treated as a no-op for the model state (the buffers persist): the two tokens are left out of the model's "
+                      "schedule and the implementation's observation after each must equal the one before it, the rest of the "
+                      "run is compared step by step as before. A drop that aborts a flush (the write raises before its bytes "
+                      "reach the wire) cannot be expressed in the model: the comparison covers the steps before it and the "
+                      "rest of the run, like every run, is judged by the oracle (the property's three clauses over the "
+                      "whole trace, all connections). A drop while a write waits at `end` (bytes already on the wire) is not "
+                      "generated: the property as stated does not say whether such a command counts as written")
     if ctx.model_ok:
         outs = lib.run_model(ops, driver=DRIVER)
-        for (case, (obs, bad, info)), (start, n) in zip(results, spans):
+        for (case, (_obs, bad, info)), (start, n), obs in zip(results, spans, compare):
             mo = outs[start:start + n]
             for i, (io, m) in enumerate(zip(obs, mo)):
                 if m.startswith("disabled") or m.startswith("bad-op"):
